@@ -99,6 +99,15 @@ def check_numeric(out: Outcome, rng, ref, test, lines, expect) -> None:
             try:
                 got = res(cls, ref, test, **kw)
             except Exception as e:  # noqa: BLE001
+                try:
+                    direct(name, ref, test, **kw)
+                    lib_raises = False
+                except Exception as e2:  # noqa: BLE001
+                    lib_raises = type(e2) is type(e)
+                if lib_raises:
+                    # the NAMED TEST itself rejects this pair (Anderson-Darling on samples that are one single value ...): the detector passing that on is the named test applied
+                    out.count("pairs_rejected_by_the_named_test_itself")
+                    continue
                 out.violation(f"{name}: compare(X, **{kw}) raised {type(e).__name__}: {e}", r)
                 continue
             want = direct(name, ref, test, **kw)
@@ -176,16 +185,21 @@ def check_numeric(out: Outcome, rng, ref, test, lines, expect) -> None:
     out.case({"n": n, "m": m, "tied": tied, "h": hash(tuple(ref + test)) & 0xFFFFFF})
 
 
-def check_chi2(out: Outcome, rng, lines, expect) -> None:
-    alphabet = rng.choice([["a", "b"], ["a", "b", "c"], ["x", "y", "z", "w"], [1, 2, 3], ["only"]])
+def check_chi2(out: Outcome, rng, lines, expect, force_long: bool = False) -> None:
+    alphabet = rng.choice([["a", "b"], ["a", "b", "c"], ["x", "y", "z", "w"], [1, 2, 3], ["only"], ["s1", "s2", "s3", "s10", "s11", "s12"]])
     objects = rng.random() < 0.25
+    if force_long:
+        alphabet, objects = ["s1", "s2", "s3", "s10", "s11", "s12"], False
+    long_labels = alphabet[0] == "s1" and not objects
     if objects:        # labels as they come out of an object column: a missing value, mixed types (hashable, not sortable)
         alphabet = [None, "a", 7, 2.5][: rng.randint(2, 4)]
     OBJECT_LABELS[0] = objects
     n, m = rng.randint(4, 40), rng.randint(4, 40)
-    ref = [rng.choice(alphabet) for _ in range(n)]
+    ref = [rng.choice(alphabet[:3] if long_labels else alphabet) for _ in range(n)]     # (labels of DIFFERENT lengths: the reference array is `<U2`, the test array `<U3` - test-only labels that are longer than every reference label)
     ints = isinstance(alphabet[0], int)      # both samples keep one dtype (numpy would otherwise stringify only one of them)
     test = [rng.choice(alphabet[: rng.randint(1, len(alphabet))] + rng.choice([[], [99 if ints else "new"]])) for _ in range(m)]
+    if long_labels and not objects:
+        test = [rng.choice(alphabet) for _ in range(max(m, 12))] + ["s10", "s11", "s12"]
     if rng.random() < 0.5:      # reference-only categories
         ref += [77 if ints else "ref_only"] * rng.randint(1, 3)
     rep = {"ref": ref, "test": test}
@@ -251,6 +265,29 @@ def check_refit(out: Outcome, rng) -> None:
                 out.violation(f"{name}: fit(A); compare(T); {'reset(); ' if with_reset else ''}fit(B); compare(T) returns ({float(r2.statistic)!r}, {float(r2.p_value)!r}), a new detector "
                               f"fitted on B returns ({float(r3.statistic)!r}, {float(r3.p_value)!r}): the comparison is not against the reference fitted last", rep)
             out.case({"refit": name, "reset_between": with_reset, "h": hash(tuple(map(str, A + B + T))) & 0xFFFFFF})
+        if name != "ChiSquare":
+            # the caller REUSES ONE BUFFER for successive references (`buf[:] = new_window; det.fit(X=buf)`): the reference is what the buffer holds at fit(), not the object's identity
+            B2 = (B * (len(A) // len(B) + 1))[: len(A)]
+            rep = {"detector": name, "A": A, "B": B2, "T": T, "kind": "refit through one reused buffer"}
+            # (BWS above 9 999 arrangements is a random resampling estimate: seeded method, decided by the sizes compared HERE)
+            fixed = {"method": st.PermutationMethod(n_resamples=199, random_state=12345)} if name == "BWS" and math.comb(len(B2) + len(T), len(T)) > 9999 else {}
+            try:
+                buf = np.array(A, dtype=float)
+                d = cls()
+                d.fit(X=buf)
+                d.compare(X=np.array(T), **fixed)
+                buf[:] = np.array(B2, dtype=float)
+                d.fit(X=buf)
+                r2 = d.compare(X=np.array(T), **fixed)[0]
+                fresh = cls()
+                fresh.fit(X=np.array(B2, dtype=float))
+                r3 = fresh.compare(X=np.array(T), **fixed)[0]
+                if not (same(float(r2.statistic), float(r3.statistic)) and same(float(r2.p_value), float(r3.p_value))):
+                    out.violation(f"{name}: fit(buf); compare; buf[:] = B; fit(buf); compare returns ({float(r2.statistic)!r}, {float(r2.p_value)!r}), a new detector fitted on B returns "
+                                  f"({float(r3.statistic)!r}, {float(r3.p_value)!r})", rep)
+            except Exception as e:  # noqa: BLE001
+                out.violation(f"{name}: re-fitting through a reused buffer raised {type(e).__name__}: {e}", rep)
+            out.case({"refit_reused_buffer": name})
 
 
 def run(out: Outcome) -> None:
@@ -272,6 +309,9 @@ def run(out: Outcome) -> None:
         if i == 6:            # the test sample IS the reference (tied): every statistic of "no difference"
             a_ = sample(rng, max(n, 6), "tied")
             b_ = list(a_)
+        if len(set(a_ + b_)) < 2:
+            b_ = list(b_)
+            b_[0] += 1.0          # a pooled sample that is ONE single value is rejected by several of the named tests themselves (Anderson-Darling): not a pair to judge wrappers on
         try:
             check_numeric(out, rng, a_, b_, lines, expect)
         except Exception as e:  # noqa: BLE001
@@ -281,7 +321,7 @@ def run(out: Outcome) -> None:
             out.violation(f"a two-sample detector raised {type(e).__name__}: {e} on finite samples of sizes {n} and {m}" + (f" (in {where[0]})" if where else ""),
                           {"ref": a_, "test": b_, "kind": "exception"})
     for _ in range(60 if thorough else 20):
-        check_chi2(out, rng, lines, expect)
+        check_chi2(out, rng, lines, expect, force_long=(_ < 2))
     check_refit(out, rng)
     # KF-C12-2: Kuiper on nearly identical samples of 290+ values (second branch of the series at N >= 144.7)
     for nn, shift in ((290, 3.5), (300, 4.5)):
